@@ -2,7 +2,11 @@
 
 package websocket
 
-import "io"
+import (
+	"io"
+
+	"nhooyr.io/websocket/internal/xsync"
+)
 
 // Ghost state of byte streams (never executed; the verifier treats the accessors as
 // uninterpreted injective functions and the fields as ordinary heap fields).
@@ -42,3 +46,16 @@ func gh(c *Conn) *ghostConn { panic("ghost") }
 func errIsCE(err error) bool         { panic("ghost") }
 func errCECode(err error) StatusCode { panic("ghost") }
 func errCEReason(err error) string   { panic("ghost") }
+
+// ghconn(r): the connection a library-internal io.Reader (msgReader.readFunc, the
+// flate reader stacked on it) reads from; what such a reader may modify is confined
+// to that connection's state (assumption A-internal-readers).
+//
+//gvc:ghost
+func ghconn(r io.Reader) *Conn { panic("ghost") }
+
+// ghostI64: the value held by an xsync.Int64.
+type ghostI64 struct{ val int64 }
+
+//gvc:ghost
+func ghi64(v *xsync.Int64) *ghostI64 { panic("ghost") }
